@@ -38,7 +38,7 @@ Definition depth_fuel (p : prepared) : nat := 24 * (length (pr_elems p) + 8).
 Inductive entry : Set := EFile | EExpr | EStmt | EStmts (n : nat).
 
 Definition start_state (p : prepared) : cstate_t :=
-  init_state N (list comment) cstate scan_err 0 {| c_all := []; c_lead := [] |}
+  init_state N (list comment) cstate scan_err 0 {| c_all := []; c_lead := []; c_prev := None |}
              (pr_elems p) (pr_term p).
 
 Definition run_entry (e : entry) (p : prepared) : cres cnode :=
